@@ -1,5 +1,6 @@
-(** The C18 statements about the model, in terms of the observable history. *)
-From NL Require Import DoneCb.Model DoneCb.Safety DoneCb.Inv DoneCb.Partial.
+(** The C18 statements about the model of the repaired thread.py, in terms of the
+    observable history; for EVERY schedule and any number of registering threads. *)
+From NL Require Import DoneCb.Model DoneCb.Safety DoneCb.Inv.
 From Coq Require Import Lia.
 
 Section Main.
@@ -8,12 +9,14 @@ Variable raises : nat -> bool.
 (** ---- what a history shows (functions of the history alone, see Inv.ghost_of) *)
 Definition called (ls : list label) : list nat := g_cl (ghost_of (history raises ls)).
 Definition registered (ls : list label) : list nat := g_rg (ghost_of (history raises ls)).
+(** threads whose register() had returned when close() was called *)
+Definition registered_before_close (ls : list label) : list nat := g_rgc (ghost_of (history raises ls)).
 Definition ended (ls : list label) : list nat := g_dd (ghost_of (history raises ls)).
 Definition close_results (ls : list label) : list (option exn) := g_cr (ghost_of (history raises ls)).
 Definition monitor_exits (ls : list label) : list (option exn) := g_mx (ghost_of (history raises ls)).
 Definition first_raised (ls : list label) : option exn := hd_error (map ExCb (g_rz (ghost_of (history raises ls)))).
 
-(** safety, every schedule: at most once, only registered threads, only after the thread ended.
+(** at any time: never twice, only registered threads, only after the thread ended.
     (The statement holds for every schedule, hence for the prefix that ends with the
     callback: the [Die t] label precedes the step that invokes the callback.) *)
 Theorem thread_at_most_once ls :
@@ -23,130 +26,110 @@ Proof.
   intros t H. apply (i_dead _ _ I). apply (i_cl_dead _ _ I). exact H.
 Qed.
 
-(** every schedule: close() returns only after the monitor thread ended, with the monitor's exception *)
+(** close() returns only after the monitor thread ended, with the monitor's exception *)
 Theorem close_after_monitor ls e : In e (close_results ls) -> In e (monitor_exits ls).
 Proof.
   pose proof (Inv_run raises ls) as I. intros H.
   apply (i_mx_rev _ _ I). apply (i_cdone _ _ I). apply (i_cr _ _ I). exact H.
 Qed.
 
-(** every schedule: the monitor ends either by the iteration error or with the first callback exception *)
-Theorem monitor_exit_kinds ls e :
-  In e (monitor_exits ls) -> e = Some ExSetChanged \/ e = first_raised ls.
+(** the monitor thread can only end with the first callback exception (or normally):
+    "Set changed size during iteration" is impossible *)
+Theorem no_iteration_error ls e :
+  In e (monitor_exits ls) -> e = first_raised ls /\ e <> Some ExSetChanged.
 Proof.
-  pose proof (Inv_run raises ls) as I. intros H. apply (i_exit _ _ I). apply (i_mx _ _ I). exact H.
+  pose proof (Inv_run raises ls) as I. intros H.
+  destruct (i_exit _ _ I e (i_mx _ _ I e H)) as (He & _). split; [exact He|].
+  rewrite He. destruct (g_rz (ghost_of (history raises ls))); simpl; discriminate.
 Qed.
 
-(** under no_overlap: when close() returns, every registered thread has ended and has been
-    called back exactly once; and close() re-raises exactly the first callback exception *)
-Theorem thread_partial ls e :
-  no_overlap raises ls = true -> In e (close_results ls) ->
-  (forall t, In t (registered ls) -> count_occ Nat.eq_dec (called ls) t = 1 /\ In t (ended ls))
-  /\ e = first_raised ls.
+(** once close() has returned, every thread registered before close() was called has ended
+    and its callback was invoked exactly once *)
+Theorem thread_exactly_once ls e :
+  In e (close_results ls) ->
+  forall t, In t (registered_before_close ls) ->
+    count_occ Nat.eq_dec (called ls) t = 1 /\ In t (ended ls).
 Proof.
-  intros Hno Hc. pose proof (Inv_run raises ls) as I. pose proof (PInv_run raises ls Hno) as P.
+  intros Hc t Hr. pose proof (Inv_run raises ls) as I.
   assert (Hx : m_pc (run raises ls) = MExited e).
   { apply (i_cdone _ _ I). apply (i_cr _ _ I). exact Hc. }
-  destruct (p_exit _ _ P e Hx) as (He & Hall). split; [|exact He].
-  intros t Hr. specialize (Hall t Hr). split.
+  destruct (i_exit _ _ I e Hx) as (_ & Hall & _). specialize (Hall t Hr). split.
   - apply NoDup_count_occ'; [apply (i_cl_nodup _ _ I)|exact Hall].
   - apply (i_dead _ _ I). apply (i_cl_dead _ _ I). exact Hall.
 Qed.
 
-Corollary close_waits_partial ls e :
-  no_overlap raises ls = true -> In e (close_results ls) ->
-  forall t, In t (registered ls) -> In t (called ls) /\ In t (ended ls).
+Theorem close_waits ls e :
+  In e (close_results ls) ->
+  forall t, In t (registered_before_close ls) -> In t (called ls) /\ In t (ended ls).
 Proof.
-  intros Hno Hc t Hr. destruct (thread_partial ls e Hno Hc) as (H & _). destruct (H t Hr) as (Hc1 & Hd).
-  split; [|exact Hd]. apply (count_occ_In Nat.eq_dec). lia.
+  intros Hc t Hr. destruct (thread_exactly_once ls e Hc t Hr) as (H1 & H2). split; [|exact H2].
+  apply (count_occ_In Nat.eq_dec). lia.
 Qed.
 
-Corollary exception_reraised_partial ls e :
-  no_overlap raises ls = true -> In e (close_results ls) -> e = first_raised ls.
-Proof. intros Hno Hc. apply (thread_partial ls e Hno Hc). Qed.
-
-(** under no_overlap the monitor never dies of the iteration error *)
-Theorem no_iteration_error_partial ls e :
-  no_overlap raises ls = true -> In e (monitor_exits ls) -> e = first_raised ls.
+(** close() re-raises exactly the first callback exception, returns normally if there is none *)
+Theorem exception_reraised ls e : In e (close_results ls) -> e = first_raised ls.
 Proof.
-  intros Hno H. pose proof (Inv_run raises ls) as I. pose proof (PInv_run raises ls Hno) as P.
-  destruct (p_exit _ _ P e (i_mx _ _ I e H)) as (He & _). exact He.
+  intros Hc. pose proof (Inv_run raises ls) as I.
+  apply (i_exit _ _ I). apply (i_cdone _ _ I). apply (i_cr _ _ I). exact Hc.
+Qed.
+
+(** mutual exclusion: a registering thread inside `with self._lock` excludes the monitor's
+    scan / rebuild / exit check, and any other registering thread *)
+Theorem lock_excludes ls t :
+  let s := run raises ls in
+  reg_locked (regs s t) -> ~ mon_locked (m_pc s) /\ forall t', reg_locked (regs s t') -> t' = t.
+Proof.
+  intros s H. pose proof (Inv_run raises ls) as I. fold s in I.
+  apply (i_lock_reg _ _ I) in H. split.
+  - intros Hm. apply (i_lock_mon _ _ I) in Hm. congruence.
+  - intros t' H'. apply (i_lock_reg _ _ I) in H'. congruence.
 Qed.
 
 End Main.
 
-(** ---- concrete schedules *)
-Definition R (t : nat) := Step (Reg t).
-Definition drain_close : list label := [CloseCall; Step Closer; Step Closer; Step Closer; Step Closer].
-
-(** (a) lost update: thread 1 registered and ended; the monitor scans, calls back, computes
-    `self._active - done`; thread 2 registers (the add goes to the OLD set object); the monitor
-    stores the new set. *)
-Definition w_lost_update : list label :=
-  [Arrive 1; R 1; R 1; Die 1] ++ repeat (Step Mon) 8 ++ [Arrive 2; R 2; R 2; Step Mon; Die 2]
-  ++ drain_close ++ repeat (Step Mon) 3.
-
-(** (b) set changed size during iteration: thread 1 adds itself between GET_ITER and FOR_ITER *)
-Definition w_iteration : list label :=
-  [Step Mon; Step Mon; Arrive 1; R 1; R 1; Step Mon; Die 1] ++ drain_close.
-
-(** (c) exit race: the monitor saw the set empty; thread 1 registers; close() sets _closed;
-    the monitor reads _closed and leaves *)
-Definition w_exit_race : list label :=
-  repeat (Step Mon) 5 ++ [Arrive 1; R 1; R 1; CloseCall; Step Closer; Step Closer; Step Closer; Step Mon; Die 1; Step Closer].
-
-(** (d) a callback exception is lost when the monitor later dies of the iteration error *)
-Definition w_exception_lost : list label :=
-  [Arrive 1; R 1; R 1; Die 1] ++ repeat (Step Mon) 14 ++ [Arrive 2; R 2; R 2; Step Mon; Die 2] ++ drain_close.
-
-(** a run with two threads whose registrations interleave with the monitor but never overlap
-    a critical window; the callback for thread 1 raises *)
-Definition ex_ok : list label :=
-  [Step Mon; Arrive 1; R 1; R 1] ++ repeat (Step Mon) 4 ++ [Arrive 2; R 2; Step Mon; R 2; Step Mon; Die 1]
-  ++ repeat (Step Mon) 9 ++ [Die 2] ++ repeat (Step Mon) 16 ++ drain_close ++ repeat (Step Mon) 6.
-
+(** ---- concrete schedules: the three schedules on which the unrepaired code lost a callback
+    (as executed on the repaired class by the harness, drain included), and the same races
+    aimed at the repaired code, where the registering thread now waits for the lock *)
 Definition nobody : nat -> bool := fun _ => false.
 Definition only1 : nat -> bool := fun t => t =? 1.
 
-(** The full-strength statement of the thread half (FALSE of the faithful model, see below):
-    whenever close() has returned, every registered thread has ended and was called back
-    exactly once, and close() re-raised exactly the first callback exception. *)
-Definition thread_statement : Prop :=
-  forall raises ls e, In e (close_results raises ls) ->
-    (forall t, In t (registered raises ls) ->
-       count_occ Nat.eq_dec (called raises ls) t = 1 /\ In t (ended raises ls))
-    /\ e = first_raised raises ls.
+Definition w_iteration : list label :=
+  [Step Mon; Step Mon; Arrive 1%nat; Step (Reg 1%nat); Step (Reg 1%nat); Step Mon; Step Mon; Step Mon; Step Mon; Step Mon; Step Mon; Step (Reg 1%nat); Step (Reg 1%nat); Step (Reg 1%nat); Step (Reg 1%nat); Die 1%nat; CloseCall; Step Closer; Step Closer; Step Closer; Step Closer; Step Mon; Step Mon; Step Mon; Step Mon; Step Mon; Step Mon; Step Mon; Step Mon; Step Mon; Step Mon; Step Mon; Step Mon; Step Mon; Step Mon; Step Mon; Step Mon; Step Mon; Step Mon; Step Mon; Step Mon].
+Definition w_lost_update : list label :=
+  [Arrive 1%nat; Step (Reg 1%nat); Step (Reg 1%nat); Die 1%nat; Step Mon; Step Mon; Step Mon; Step Mon; Step Mon; Step Mon; Step Mon; Step Mon; Arrive 2%nat; Step (Reg 2%nat); Step (Reg 2%nat); Step Mon; Step (Reg 1%nat); Step (Reg 1%nat); Step (Reg 2%nat); Step (Reg 2%nat); Step (Reg 2%nat); Step (Reg 2%nat); Die 1%nat; Die 2%nat; CloseCall; Step Closer; Step Closer; Step Closer; Step Closer; Step Mon; Step Mon; Step Mon; Step Mon; Step Mon; Step Mon; Step Mon; Step Mon; Step Mon; Step Mon; Step Mon; Step Mon; Step Mon; Step Mon; Step Mon; Step Mon; Step Mon; Step Mon; Step Mon].
+Definition w_exit_race : list label :=
+  [Step Mon; Step Mon; Step Mon; Step Mon; Step Mon; Arrive 1%nat; Step (Reg 1%nat); Step (Reg 1%nat); CloseCall; Step Closer; Step Closer; Step Closer; Step Mon; Step Mon; Step Mon; Step (Reg 1%nat); Step (Reg 1%nat); Step (Reg 1%nat); Step (Reg 1%nat); Die 1%nat; Step Closer; Step Mon; Step Mon; Step Mon; Step Mon; Step Mon; Step Mon; Step Mon; Step Mon; Step Mon; Step Mon; Step Mon; Step Mon; Step Mon; Step Mon; Step Mon; Step Mon; Step Mon; Step Mon; Step Mon; Step Mon].
+Definition w_iteration_locked : list label :=
+  [Step Mon; Step Mon; Step Mon; Arrive 1%nat; Step (Reg 1%nat); Step (Reg 1%nat); Step Mon; Step (Reg 1%nat); Step Mon; Step Mon; Step Mon; Step Mon; Step (Reg 1%nat); Step (Reg 1%nat); Step (Reg 1%nat); Step (Reg 1%nat); Die 1%nat; CloseCall; Step Closer; Step Closer; Step Closer; Step Closer; Step Mon; Step Mon; Step Mon; Step Mon; Step Mon; Step Mon; Step Mon; Step Mon; Step Mon; Step Mon; Step Mon; Step Mon; Step Mon; Step Mon; Step Mon; Step Mon; Step Mon; Step Mon; Step Mon; Step Mon].
+Definition w_lost_update_locked : list label :=
+  [Arrive 1%nat; Step (Reg 1%nat); Step (Reg 1%nat); Step (Reg 1%nat); Step (Reg 1%nat); Die 1%nat; Step Mon; Step Mon; Step Mon; Step Mon; Step Mon; Step Mon; Step Mon; Step Mon; Arrive 2%nat; Step (Reg 2%nat); Step (Reg 2%nat); Step Mon; Step (Reg 2%nat); Step Mon; Step (Reg 2%nat); Step (Reg 2%nat); Step (Reg 2%nat); Step (Reg 2%nat); Die 2%nat; CloseCall; Step Closer; Step Closer; Step Closer; Step Closer; Step Mon; Step Mon; Step Mon; Step Mon; Step Mon; Step Mon; Step Mon; Step Mon; Step Mon; Step Mon; Step Mon; Step Mon; Step Mon; Step Mon; Step Mon; Step Mon; Step Mon; Step Mon; Step Mon; Step Mon; Step Mon].
+Definition w_exit_race_locked : list label :=
+  [Step Mon; Step Mon; Step Mon; Step Mon; Step Mon; Step Mon; Step Mon; Step Mon; Step Mon; Step Mon; Step Mon; Arrive 1%nat; Step (Reg 1%nat); Step Mon; Step (Reg 1%nat); Step Mon; Step (Reg 1%nat); Step (Reg 1%nat); Step (Reg 1%nat); Step (Reg 1%nat); CloseCall; Step Closer; Step Closer; Step Closer; Die 1%nat; Step Closer; Step Mon; Step Mon; Step Mon; Step Mon; Step Mon; Step Mon; Step Mon; Step Mon; Step Mon; Step Mon; Step Mon; Step Mon; Step Mon; Step Mon; Step Mon; Step Mon].
 
-Lemma refuted_lost_update :
-  exists ls, In None (close_results nobody ls) /\ In 2 (registered nobody ls) /\ In 2 (ended nobody ls)
-             /\ count_occ Nat.eq_dec (called nobody ls) 2 = 0
-             /\ obj (heap (run nobody ls)) (active (run nobody ls)) = [].
-Proof. exists w_lost_update. vm_compute. intuition. Qed.
 
-Lemma refuted_iteration :
-  exists ls, close_results nobody ls = [Some ExSetChanged] /\ In 1 (registered nobody ls) /\ In 1 (ended nobody ls)
-             /\ count_occ Nat.eq_dec (called nobody ls) 1 = 0 /\ first_raised nobody ls = None.
-Proof. exists w_iteration. vm_compute. intuition. Qed.
+Definition blocked_steps (ls : list label) : nat :=
+  length (filter (fun lo => match lo with (Step _, ODisabled) => true | _ => false end) (history nobody ls)).
 
-Lemma refuted_exit_race :
-  exists ls, In None (close_results nobody ls) /\ In 1 (registered nobody ls)
-             /\ count_occ Nat.eq_dec (called nobody ls) 1 = 0
-             /\ obj (heap (run nobody ls)) (active (run nobody ls)) = [1].
-Proof. exists w_exit_race. vm_compute. intuition. Qed.
+Lemma example_former_witnesses :
+  (close_results nobody w_iteration = [None] /\ registered_before_close nobody w_iteration = [1]
+   /\ called nobody w_iteration = [1] /\ monitor_exits nobody w_iteration = [None])
+  /\ (close_results nobody w_lost_update = [None] /\ registered_before_close nobody w_lost_update = [2; 1]
+      /\ called nobody w_lost_update = [2; 1])
+  /\ (close_results nobody w_exit_race = [None] /\ registered nobody w_exit_race = [1]
+      /\ called nobody w_exit_race = [1]).
+Proof. vm_compute. intuition. Qed.
 
-Lemma refuted_exception_lost :
-  exists ls, close_results only1 ls = [Some ExSetChanged] /\ first_raised only1 ls = Some (ExCb 1).
-Proof. exists w_exception_lost. vm_compute. intuition. Qed.
+Lemma example_locked :
+  (close_results nobody w_iteration_locked = [None] /\ called nobody w_iteration_locked = [1]
+   /\ blocked_steps w_iteration_locked = 3)
+  /\ (close_results nobody w_lost_update_locked = [None] /\ called nobody w_lost_update_locked = [2; 1]
+      /\ blocked_steps w_lost_update_locked = 3)
+  /\ (close_results nobody w_exit_race_locked = [None] /\ called nobody w_exit_race_locked = [1]
+      /\ registered_before_close nobody w_exit_race_locked = [1] /\ blocked_steps w_exit_race_locked = 2).
+Proof. vm_compute. intuition. Qed.
 
-Lemma thread_statement_false : ~ thread_statement.
-Proof.
-  intros H. destruct (H nobody w_lost_update None) as (H1 & _); [vm_compute; tauto|].
-  destruct (H1 2) as (H2 & _); [vm_compute; tauto|]. vm_compute in H2. discriminate.
-Qed.
-
-Lemma example_nonvacuous :
-  no_overlap only1 ex_ok = true /\ registered only1 ex_ok = [2; 1] /\ called only1 ex_ok = [2; 1]
-  /\ close_results only1 ex_ok = [Some (ExCb 1)] /\ first_raised only1 ex_ok = Some (ExCb 1)
-  /\ no_overlap nobody w_lost_update = false /\ no_overlap nobody w_iteration = false
-  /\ no_overlap nobody w_exit_race = false.
+(** a raising callback: close() re-raises it *)
+Lemma example_raises :
+  close_results only1 w_lost_update = [Some (ExCb 1)] /\ first_raised only1 w_lost_update = Some (ExCb 1)
+  /\ called only1 w_lost_update = [2; 1] /\ ended only1 w_lost_update = [2; 1].
 Proof. vm_compute. intuition. Qed.
